@@ -1,6 +1,7 @@
 (* C06: operator== of the directed labelled model is transitive on graphs satisfying the invariant whenever the label type's == is,
    so together with Equality.graph_eqb_refl / graph_eqb_sym it is an equivalence relation - "value equality" in the full sense. *)
-From BG Require Import Base DirectedModel DirectedProofs DirectedIter DirectedUsers DirectedSpec DirectedRefine DirectedObs Equality.
+From BG Require Import Base DirectedModel DirectedProofs DirectedIter DirectedUsers DirectedSpec DirectedRefine DirectedObs Equality
+  UndirectedModel UndirectedProofs UndirectedIter UndirectedSpec UndirectedRefine UndirectedObs EqualityMore.
 
 Section EqTrans.
 Context {L : Type}.
@@ -43,3 +44,27 @@ Proof.
   - apply (labels_agree_trans g h k T Ig Ih SE1 LA1 LA2).
 Qed.
 End EqTrans.
+
+(* the undirected labelled class, under the symmetric invariant: same argument, the store's keys being exactly the ordered (i<=j) edges *)
+Theorem u_graph_eqb_trans : forall (L : Type) (leqb : L -> L -> bool) hs (g h k : @dgraph L),
+  (forall x y z, leqb x y = true -> leqb y z = true -> leqb x z = true) ->
+  InvU hs g -> InvU hs h -> InvU hs k -> KeysOK g -> KeysOK h -> KeysOK k ->
+  graph_eqb leqb g h = Val true -> graph_eqb leqb h k = Val true -> graph_eqb leqb g k = Val true.
+Proof.
+  intros L leqb hs g h k T Ig Ih Ik Kg Kh Kk E1 E2.
+  destruct (EqualityMore.C06_undirected_eq L leqb hs g h Ig Ih Kg Kh) as [b1 [Q1 [D1 _]]].
+  destruct (EqualityMore.C06_undirected_eq L leqb hs h k Ih Ik Kh Kk) as [b2 [Q2 [D2 _]]].
+  destruct (EqualityMore.C06_undirected_eq L leqb hs g k Ig Ik Kg Kk) as [b3 [Q3 [_ U3]]].
+  rewrite E1 in Q1. rewrite E2 in Q2. injection Q1 as <-. injection Q2 as <-.
+  destruct (D1 eq_refl) as [S1 [SE1 LA1]]. destruct (D2 eq_refl) as [S2 [SE2 LA2]].
+  rewrite Q3. f_equal. apply U3. split; [congruence|]. split.
+  - intros i j. rewrite (SE1 i j). apply SE2.
+  - intros [i j] v v'' F1 F3.
+    pose proof (u_lab _ _ Ig) as ILg. pose proof (u_lab _ _ Ih) as ILh.
+    destruct hs.
+    + assert (E : (i <= j)%nat /\ In j (nb g i)) by (apply ILg; rewrite F1; discriminate).
+      destruct E as [Le E]. apply SE1 in E. assert (E' : lfind (i, j) (labels h) <> None) by (apply ILh; split; assumption).
+      destruct (lfind (i, j) (labels h)) as [v'|] eqn:F2; [|congruence].
+      apply (T v v' v''); [apply (LA1 (i, j) v v' F1 F2)|apply (LA2 (i, j) v' v'' F2 F3)].
+    + rewrite ILg in F1. discriminate.
+Qed.
